@@ -212,7 +212,103 @@ int cmd_refs(const Args&) {
   return bad ? 1 : 0;
 }
 
-struct Init { Init() { register_families(); static C10World w; registry().push_back(&w); const char* pf = getenv("DSIM_PEER_FILE"); if (pf && *pf) load_peer(pf); } } init_;
+#if defined(GROUP_DISTINCT)
+// ---- legacy Theta images (serial versions 1 and 2) synthesised by an encoder written from the documented layout, and
+// ---- hashing of every input length against the independent MurmurHash3 (block boundaries 15/16/17, 31/32/33, ...)
+struct C10LegacyWorld: World {
+  typedef talloc<uint64_t> A; typedef datasketches::update_theta_sketch_alloc<A> U; typedef datasketches::compact_theta_sketch_alloc<A> C; typedef datasketches::wrapped_compact_theta_sketch_alloc<A> W;
+  const char* name() const override { return "c10ld"; }
+  const char* step_name(int k) const override { return k == 1 ? "legacy_v1" : k == 2 ? "legacy_v2" : k == 3 ? "hash_lengths" : "step"; }
+  std::string family_of(const Plan&) const override { return "theta-legacy"; }
+  Plan generate(u64 run_seed, int) override { Plan p; p.run_seed = run_seed; Rng r(run_seed, "plan"); static const i64 cnt[] = { 0, 1, 2, 5, 31, 32, 33, 100, 400, 2000 }; p.cfg = { r.range(5, 8), static_cast<i64>(r.below(3)), r.pick(cnt), static_cast<i64>(r.below(100000)), static_cast<i64>(r.below(4)) };
+    for (int k = 1; k <= 3; k++) { Step s; s.kind = k; s.a = static_cast<i64>(r.below(4)); s.b = static_cast<i64>(r.below(1000)); p.steps.push_back(s); } return p; }
+  static void put32(Bytes& b, size_t off, uint32_t v) { std::memcpy(b.data() + off, &v, 4); } static void put64(Bytes& b, size_t off, u64 v) { std::memcpy(b.data() + off, &v, 8); }
+  void check_image(Ctx& ctx, const Bytes& img, u64 seed, u64 theta, const std::vector<u64>& entries, bool empty, const char* which) {
+    const std::string fpfx = std::string("C10|theta|legacy-") + which + "|";
+    auto cmp = [&](bool e, u64 t, std::vector<u64> got, const char* reader) {
+      std::sort(got.begin(), got.end());
+      if (e != empty || (!empty && t != theta) || got != entries) ctx.fail(fpfx + reader + "-reads-legacy-image-differently", "empty " + std::to_string(e) + "/" + std::to_string(empty) + " theta " + std::to_string(t) + "/" + std::to_string(theta) + " entries " + std::to_string(got.size()) + "/" + std::to_string(entries.size()) + (got.size() == entries.size() && !got.empty() && got != entries ? " (values differ)" : ""));
+      ctx.check(); };
+    { ExactBuf eb(img.data(), img.size()); C c = C::deserialize(eb.p, eb.n, seed, A(1)); std::vector<u64> g; for (auto it = c.begin(); it != c.end(); ++it) g.push_back(*it); cmp(c.is_empty(), c.get_theta64(), g, "bytes-reader"); }
+    { SimFileBuf fb(img.data(), img.size(), 0, 7, static_cast<size_t>(-1), static_cast<size_t>(-1)); std::istream is(&fb); C c = C::deserialize(is, seed, A(1)); std::vector<u64> g; for (auto it = c.begin(); it != c.end(); ++it) g.push_back(*it); cmp(c.is_empty(), c.get_theta64(), g, "stream-reader");
+      ctx.require(fb.consumed() == img.size(), (fpfx + "stream-reader-consumed-wrong-length").c_str(), std::to_string(fb.consumed()) + " of " + std::to_string(img.size())); }
+    { ExactBuf eb(img.data(), img.size()); W w = W::wrap(eb.p, eb.n, seed); std::vector<u64> g; for (auto it = w.begin(); it != w.end(); ++it) g.push_back(*it); cmp(w.is_empty(), w.get_theta64(), g, "wrap"); }
+    ctx.fault("version_skew"); ctx.nontrivial = true;
+  }
+  void execute(const Plan& p, Ctx& ctx) override {
+    alloc_state().reset_counters(); alloc_state().budget = static_cast<size_t>(1) << 30;
+    static const u64 seeds[3] = { datasketches::DEFAULT_SEED, 12345, 0x9e3779b97f4a7c15ULL }; static const float ps[4] = { 1.0f, 0.5f, 0.1f, 1.0f };
+    const u64 seed = seeds[p.cfg[1] % 3];
+    U u = U::builder(A(1)).set_lg_k(static_cast<uint8_t>(p.cfg[0])).set_p(ps[p.cfg[4] & 3]).set_seed(seed).build();
+    for (i64 j = 0; j < p.cfg[2]; j++) u.update(static_cast<int64_t>(p.cfg[3] + j));
+    std::vector<u64> entries; for (auto it = u.begin(); it != u.end(); ++it) entries.push_back(*it); std::sort(entries.begin(), entries.end());
+    const u64 theta = u.get_theta64(); const bool empty = u.is_empty(); const uint16_t seed_hash = u.get_seed_hash(); const u64 MAXT = 0x7fffffffffffffffULL;
+    int idx = 0;
+    for (const Step& s : p.steps) {
+      ctx.begin_step(idx++, s.kind);
+      if (s.kind == 1) {   // serial version 1: 3 preamble longs, entry count at byte 8, theta at byte 16, ordered entries from byte 24; no seed hash
+        Bytes img(24 + 8 * entries.size(), 0); img[0] = 3; img[1] = 1; img[2] = 3; put32(img, 8, static_cast<uint32_t>(entries.size())); put64(img, 16, empty ? MAXT : theta);
+        for (size_t i = 0; i < entries.size(); i++) put64(img, 24 + 8 * i, entries[i]);
+        if (!empty && entries.empty() && theta == MAXT) continue;
+        check_image(ctx, img, seed, theta, entries, empty || (entries.empty() && theta == MAXT), "v1");
+      } else if (s.kind == 2) {   // serial version 2: 1 long when empty, 2 longs in exact mode (count at byte 8), 3 longs in estimation mode (theta at byte 16); seed hash at byte 6
+        const int shape = empty ? 1 : (theta == MAXT && (s.a & 1) ? 2 : 3);
+        Bytes img(shape == 1 ? 8 : shape == 2 ? 16 + 8 * entries.size() : 24 + 8 * entries.size(), 0);
+        img[0] = static_cast<uint8_t>(shape); img[1] = 2; img[2] = 3; std::memcpy(img.data() + 6, &seed_hash, 2);
+        if (shape >= 2) put32(img, 8, static_cast<uint32_t>(entries.size())); if (shape == 3) put64(img, 16, theta);
+        for (size_t i = 0; i < entries.size(); i++) put64(img, (shape == 2 ? 16 : 24) + 8 * i, entries[i]);
+        if (!empty && entries.empty()) continue;   // the legacy formats cannot express "non-empty with nothing retained" below theta MAX distinctly in shape 2
+        check_image(ctx, img, seed, theta, entries, empty, shape == 1 ? "v2-empty" : shape == 2 ? "v2-exact" : "v2-estimation");
+        ctx.probe(shape == 1 ? "legacy_v2_empty" : shape == 2 ? "legacy_v2_exact" : "legacy_v2_estimation");
+      } else if (s.kind == 3) {   // every input length 0..80: the retained hash must be the published MurmurHash3 of exactly those bytes
+        U h = U::builder(A(1)).set_lg_k(12).set_seed(seed).build(); std::set<u64> want;
+        for (size_t len = 1; len <= 80; len++) { uint8_t buf[80]; for (size_t i = 0; i < len; i++) buf[i] = static_cast<uint8_t>(s.b * 31 + static_cast<i64>(i * 7 + len)); h.update(static_cast<const void*>(buf), len); want.insert(murmur3_x64_128(buf, len, seed).h1 >> 1);
+          std::string str(reinterpret_cast<const char*>(buf), len); for (char& c : str) if (c == 0) c = 1; h.update(str); want.insert(murmur3_x64_128(str.data(), str.size(), seed).h1 >> 1); }
+        std::set<u64> got; for (auto it = h.begin(); it != h.end(); ++it) got.insert(*it);
+        if (got != want) ctx.fail("C10|theta|hash-of-some-input-length-differs-from-published-murmur3", std::to_string(got.size()) + " vs " + std::to_string(want.size()) + " distinct hashes");
+        ctx.check(); ctx.probe("hash_lengths_1_to_80");
+      }
+      ctx.t(static_cast<u64>(entries.size())); ctx.t(theta);
+    }
+  }
+};
+static void register_extra() { static C10LegacyWorld l; registry().push_back(&l); }
+#elif defined(GROUP_MISC)
+#include <bloom_filter.hpp>
+// hashing of every input length against the independent XXH64 (stripe boundary at 32 bytes), observed through the Bloom filter's bit array
+struct C10HashWorld: World {
+  typedef talloc<uint8_t> A; typedef datasketches::bloom_filter_alloc<A> S;
+  const char* name() const override { return "c10hm"; }
+  const char* step_name(int) const override { return "hash_lengths"; }
+  std::string family_of(const Plan&) const override { return "bloom-hash"; }
+  Plan generate(u64 run_seed, int) override { Plan p; p.run_seed = run_seed; Rng r(run_seed, "plan"); p.cfg = { static_cast<i64>(r.below(3)), r.range(1, 5) }; Step s; s.kind = 1; s.b = static_cast<i64>(r.below(1000)); p.steps.push_back(s); return p; }
+  void execute(const Plan& p, Ctx& ctx) override {
+    alloc_state().reset_counters(); alloc_state().budget = static_cast<size_t>(1) << 30;
+    static const u64 seeds[3] = { datasketches::DEFAULT_SEED, 12345, 0x9e3779b97f4a7c15ULL }; const u64 seed = seeds[p.cfg[0] % 3]; const int nh = static_cast<int>(p.cfg[1]); const u64 cap = 1 << 16;
+    int idx = 0;
+    for (const Step& s : p.steps) {
+      ctx.begin_step(idx++, s.kind);
+      for (size_t len = 1; len <= 100; len++) {
+        uint8_t buf[100]; for (size_t i = 0; i < len; i++) buf[i] = static_cast<uint8_t>(1 + (s.b * 31 + static_cast<i64>(i * 7 + len)) % 250);
+        for (int form = 0; form < 2; form++) {
+          S f = S::builder::create_by_size(cap, static_cast<uint16_t>(nh), seed, A(1));
+          if (form == 0) f.update(static_cast<const void*>(buf), len); else f.update(std::string(reinterpret_cast<const char*>(buf), len));
+          const u64 h0 = xxh64(buf, len, seed), h1 = xxh64(buf, len, h0); Bytes want(cap >> 3, 0); for (int i = 1; i <= nh; i++) { u64 ix = ((h0 + static_cast<u64>(i) * h1) >> 1) % cap; want[ix >> 3] |= static_cast<uint8_t>(1u << (ix & 7)); }
+          auto img = f.serialize();
+          if (img.size() != 32 + want.size() || std::memcmp(img.data() + 32, want.data(), want.size()) != 0) ctx.fail("C10|bloom|hash-of-some-input-length-differs-from-published-xxh64", "input of " + std::to_string(len) + " bytes");
+          ctx.check();
+        }
+      }
+      ctx.probe("hash_lengths_1_to_100"); ctx.nontrivial = true; ctx.fault("version_skew");
+    }
+  }
+};
+static void register_extra() { static C10HashWorld h; registry().push_back(&h); }
+#else
+static void register_extra() {}
+#endif
+
+struct Init { Init() { register_families(); register_extra(); static C10World w; registry().push_back(&w); const char* pf = getenv("DSIM_PEER_FILE"); if (pf && *pf) load_peer(pf); } } init_;
 } // namespace
 
 int main(int argc, char** argv) {
